@@ -20,7 +20,7 @@ ROOT = os.path.dirname(os.path.dirname(os.path.abspath(__file__)))
 SPEC_DIR = os.path.join(ROOT, "spec")
 JAR = "/opt/veriftools/tla/tla2tools.jar"
 CP = JAR + ":/opt/veriftools/tla/CommunityModules-deps.jar"
-NCPU = os.cpu_count() or 4
+NCPU = int(os.environ.get("VERIF_JOBS") or 0) or os.cpu_count() or 4   # VERIF_JOBS caps "auto" workers
 
 
 class MachineryError(Exception):
